@@ -130,6 +130,9 @@ def run_case(case, tier):
         grid = tuple(case["grid"])
     else:
         recs = sources.random_small_structure(rng, 80, 900)
+        if rng.random() < 0.3:
+            from .c09 import add_hetero
+            recs = add_hetero(recs, rng, classes)
         if rng.random() < 0.2:
             from .. import multiconf
             recs, _d = multiconf.build(rng, base=recs)
